@@ -81,6 +81,11 @@ def configs(tier, seed):
     # "built from accepted parameters"), but a component it does hand out must elaborate or be refused explicitly
     for what, kw in ODD_PARAMS:
         out.append({"kind": "odd_params", "cfg": {"what": what, "kw": kw}})
+    # legal but LARGE parameter values: about a thousand windows / registers / initiators / event sources on one component
+    # (elaborated through Fragment.prepare() only - the RTLIL text of such a design is tens of megabytes)
+    for what, n in [("csr_decoder", 1100), ("wb_decoder", 1100), ("mux_registers", 1100), ("event_sources", 1500), ("register_fields", 1200)] + \
+                   ([("arbiter", 300), ("gpio_pins", 300)] if tier == "thorough" else []):
+        out.append({"kind": "large", "cfg": {"what": what, "n": n}})
     # registers whose nested field names collide after flattening with '__'
     out.append({"kind": "register_real", "cfg": {"fields": "nested_collision"}})
     out.append({"kind": "register_real", "cfg": {"fields": "mixed"}})
@@ -160,11 +165,58 @@ def build_odd(cfg):
     raise KeyError(what)
 
 
+def build_large(cfg):
+    from amaranth_soc import csr, event, gpio, wishbone
+    from amaranth_soc.csr import action
+    from amaranth_soc.memory import MemoryMap
+    from amaranth.lib import wiring
+    from amaranth.lib.wiring import Out
+    what, n = cfg["what"], cfg["n"]
+    if what == "csr_decoder":
+        d = csr.Decoder(addr_width=16, data_width=8)
+        for i in range(n):
+            sb = csr.Interface(addr_width=2, data_width=8, path=(f"s{i}",)); sb.memory_map = MemoryMap(addr_width=2, data_width=8)
+            d.add(sb, name=f"w{i}")
+        return d, None
+    if what == "wb_decoder":
+        d = wishbone.Decoder(addr_width=16, data_width=8, features={"err", "stall"})
+        for i in range(n):
+            sb = wishbone.Interface(addr_width=2, data_width=8, features={"err"} if i % 2 else {"stall"}, path=(f"s{i}",))
+            sb.memory_map = MemoryMap(addr_width=2, data_width=8)
+            d.add(sb, name=f"w{i}")
+        return d, None
+    if what == "mux_registers":
+        class MockReg(wiring.Component):
+            def __init__(self, width, access):
+                super().__init__({"element": Out(csr.Element.Signature(width, access))})
+        mm = MemoryMap(addr_width=12, data_width=8)
+        for i in range(n):
+            mm.add_resource(MockReg(8, "rw" if i % 2 else "r"), name=f"r{i}", size=1)
+        return csr.Multiplexer(mm), None
+    if what == "event_sources":
+        emap = event.EventMap()
+        for i in range(n):
+            emap.add(event.Source(path=(f"e{i}",)))
+        return csr.event.EventMonitor(emap, data_width=32), None
+    if what == "register_fields":
+        return csr.Register({f"f{i}": csr.Field(action.RW, 1) for i in range(n)}, access="rw"), None
+    if what == "arbiter":
+        a = wishbone.Arbiter(addr_width=4, data_width=8)
+        for i in range(n):
+            a.add(wishbone.Interface(addr_width=4, data_width=8, path=(f"i{i}",)))
+        return a, None
+    if what == "gpio_pins":
+        return gpio.Peripheral(pin_count=n, addr_width=9, data_width=8), None
+    raise KeyError(what)
+
+
 def build(kind, cfg):
     """Returns (component, memory_map or None)."""
     from amaranth_soc import csr, event, gpio, wishbone
     if kind == "odd_params":
         return build_odd(cfg)
+    if kind == "large":
+        return build_large(cfg)
     if kind == "mux":
         from . import mux
         try:
@@ -252,6 +304,10 @@ class _Timeout(Exception):
     pass
 
 
+class _SkipSecond(Exception):
+    pass
+
+
 def check_config(ctx, c):
     from amaranth.back import rtlil
     from amaranth.hdl import Fragment
@@ -304,7 +360,12 @@ def check_config(ctx, c):
                 if hasattr(comp, "signature"):
                     for _p, _m, sig in comp.signature.flatten(comp):
                         ports.append(sig.as_value() if hasattr(sig, "as_value") else sig)
-                texts.append(rtlil.convert(comp, ports=ports))
+                if kind == "large":
+                    frag_ = Fragment.get(comp, None)
+                    design_ = frag_.prepare(ports=ports, hierarchy=("top",))
+                    texts.append(f"large design with {sum(1 for _ in design_.fragments)} fragments")
+                else:
+                    texts.append(rtlil.convert(comp, ports=ports))
             except _Timeout:
                 result("terminates", False, f"elaboration #{k + 1} did not terminate within 180 s", f"terminates:{kind}:elaborate")
                 return
@@ -325,6 +386,8 @@ def check_config(ctx, c):
         # a second INSTANCE built from the same parameters, after the first one was built and elaborated, is the same hardware
         # (no class-level / module-level / default-argument state shared between instances)
         try:
+            if kind == "large":
+                raise _SkipSecond()
             comp_b, mm_b = build(kind, cfg)
             ports_b = []
             if hasattr(comp_b, "signature"):
@@ -342,6 +405,8 @@ def check_config(ctx, c):
                    f"second_instance_same_map:{kind}")
         except _Timeout:
             raise
+        except _SkipSecond:
+            pass
         except Exception as e:
             result("second_instance_same_hardware", False, f"building/elaborating a second instance raised {type(e).__name__}: {e} at {where(e)}",
                    f"second_instance_same_hardware:{kind}:{type(e).__name__}")
